@@ -328,3 +328,38 @@ func H_C03_having() {
 	verif.Assert(verif.Eq(got, want), "groups")
 	verif.Reach("end")
 }
+
+// H_C03_qualified: whole-table aggregates over a join read the column of the
+// side they name, even when both sides use the same column name.
+func H_C03_qualified() {
+	nl := verif.Choose("left", 3)
+	nr := verif.Choose("right", 3)
+	mk := func(n int) ([]Map, []any) {
+		rows := make([]Map, n)
+		arr := make([]any, n)
+		for i := range rows {
+			v := verif.F64("v")
+			verif.Assume(v == v)
+			rows[i] = Map{"k": float64(1), "v": v}
+			arr[i] = rows[i]
+		}
+		return rows, arr
+	}
+	lrows, larr := mk(nl)
+	rrows, rarr := mk(nr)
+	got, ok := runQuery(Map{"l": larr, "r": rarr}, "SELECT SUM(x.v) AS a, SUM(y.v) AS b, MAX(x.v) AS c, MAX(y.v) AS d, COUNT(*) AS n FROM l x JOIN r y ON x.k = y.k")
+	if !ok {
+		return
+	}
+	// every left row pairs with every right row (all keys equal)
+	var lv, rv []Map
+	for _, l := range lrows {
+		for _, r := range rrows {
+			lv = append(lv, l)
+			rv = append(rv, r)
+		}
+	}
+	want := []any{Map{"a": refSum(lv, "v"), "b": refSum(rv, "v"), "c": refMax(lv, "v"), "d": refMax(rv, "v"), "n": len(lv)}}
+	verif.Assert(verif.Eq(got, want), "own-argument")
+	verif.Reach("end")
+}
